@@ -187,6 +187,10 @@ def run(ctx):
                         "the value returned by load_config is not `result.map(|cfg| { options.apply_to(cfg) .. })`",
                         ["%s:%d" % (lc.file, lc.line)])
 
+    # each input is resolved on its own: no configuration (or anything else) is carried from one input to the next
+    import c15
+    c15.loop_state(ctx, "R14-f")
+
     E = r.rule("R14-e", "width clamp closure of set_width_heuristics: not set ↦ heuristic value; set ∧ value > max_width ↦ max_width; "
                         "otherwise the user's value")
     cl = [f for f in p.fns.values() if f.kind == "Closure" and f.root and f.root.endswith("Config::set_width_heuristics")]
